@@ -32,6 +32,8 @@ where
 {
     /// Create a Roofing Filter with a chained view
     pub fn new(view: V, window_len_low_pass: usize, super_smoother_len_high_pass: usize) -> Self {
+        // With a one-bar period the high-pass pole (1 - sin(f)) / cos(f) has magnitude > 1: the filter diverges.
+        assert!(window_len_low_pass >= 2, "window_len_low_pass must be >= 2");
         // NOTE: 4.4422 radians from  0.707 * 360 degrees
         let wl = T::from(window_len_low_pass).expect("can convert");
         let f = T::from(4.4422).expect("Can convert");
